@@ -120,6 +120,34 @@ func FetchFn(from interface{}, name string) reflect.Value {
 	panic(fmt.Sprintf(`cannot get "%v" from %T`, name, from))
 }
 
+// nilArgs gives every untyped nil argument the type of the parameter it is
+// passed for, if that type has a nil value. reflect.Value.Call takes the
+// interface{}-typed nil the VM builds for such an argument only for parameters
+// of type interface{}; for a pointer, map, slice or func parameter it panics.
+func nilArgs(fn reflect.Type, in []reflect.Value) {
+	if fn.Kind() != reflect.Func {
+		return
+	}
+	for i, arg := range in {
+		if arg.Kind() != reflect.Interface || !arg.IsNil() {
+			continue
+		}
+		var param reflect.Type
+		switch {
+		case fn.IsVariadic() && i >= fn.NumIn()-1:
+			param = fn.In(fn.NumIn() - 1).Elem()
+		case i < fn.NumIn():
+			param = fn.In(i)
+		default:
+			continue
+		}
+		switch param.Kind() {
+		case reflect.Ptr, reflect.Map, reflect.Slice, reflect.Func, reflect.Chan, reflect.Interface:
+			in[i] = reflect.Zero(param)
+		}
+	}
+}
+
 func FetchFnNil(from interface{}, name string) reflect.Value {
 	if v := reflect.ValueOf(from); !v.IsValid() {
 		return v
